@@ -2,12 +2,13 @@
   Props.C02 — update operators and replacements transform documents exactly as specified.
   Statements only; proofs in Proofs/C02*.lean.  Model: MongoModel/Update.lean (`runUpdater`,
   `updateSingleField`, `pushValue`, `addEach`, `pullList`, `replaceWhole`, `applyOps`,
-  `applyUpdate`) and `emptyOperatorCheck` (Store.lean).  The theorems give, operator by operator,
+  `applyUpdate`, `validateOps`) and `emptyOperatorCheck` / `updatePrecheck` (Store.lean).  The theorems give, operator by operator,
   the EFFECT on the addressed path and the FRAME (what is left untouched).
 -/
 import Proofs.C02
 import Proofs.C02Ext
 import Proofs.C02ExtReplace
+import Proofs.C02Refuse
 
 namespace MongoModel.Props.C02
 open MongoModel MongoModel.Spec
@@ -141,6 +142,30 @@ theorem addToSet_each_once (xs es : List Val) :
       added.Pairwise (fun a b => pyEq a b = false) :=
   Proofs.C02.addToSet_each_once xs es
 
+/-- **`$addToSet` takes no clause next to `$each`**: whatever the target holds, `{$each: …}` with
+    any other key beside it is a write error (unlike `$push`, which has `$position` / `$sort` /
+    `$slice`).  (Repaired defect: the other clause used to be dropped silently.) -/
+theorem addToSet_each_only (cur : Val) (vs : Fields) (he : (dget "$each" vs).isSome = true)
+    (k : String) (hk : k ∈ dkeys vs) (hne : k ≠ "$each") :
+    addToSetValue cur (.doc vs) = .error .writeErr :=
+  Proofs.C02Lemmas.addToSet_each_clause cur vs he k hk hne
+
+/-- … and so is the whole update `{$addToSet: {f: {$each: …, k: …}}}` applied to a document
+    (matched or being upserted), for a top-level field `f`. -/
+theorem addToSet_each_only_update (spec now : Val) (wasInsert : Bool) (f : String) (vs fs : Fields)
+    (hf1 : f.toList.contains '.' = false) (hf2 : f.toList.contains '$' = false) (hf3 : f ≠ "")
+    (he : (dget "$each" vs).isSome = true) (k : String) (hk : k ∈ dkeys vs) (hne : k ≠ "$each") :
+    applyUpdate spec (.doc [("$addToSet", .doc [(f, .doc vs)])]) now wasInsert (.doc fs) =
+      .error .writeErr :=
+  Proofs.C02Lemmas.addToSet_clause_update spec now wasInsert f vs fs hf1 hf2 hf3 he k hk hne
+
+/-- That is the only thing the clause test refuses: it fires exactly when `$each` is there together
+    with another key. -/
+theorem addToSet_clause_test (vs : Fields) :
+    eachWithOtherClause (.doc vs) = true ↔
+      (dget "$each" vs).isSome = true ∧ ∃ k ∈ dkeys vs, k ≠ "$each" :=
+  Proofs.C02Lemmas.eachWithOtherClause_iff vs
+
 /-- `$pullAll` removes exactly the elements equal to a listed value, keeping the others in
     order. -/
 theorem pullAll_spec (xs vs : List Val) :
@@ -209,6 +234,66 @@ theorem empty_operator (fs : Fields) (op : String) (hop : updaterKeys.contains o
     emptyOperatorCheck { preV5 := false } fs = .ok () :=
   Proofs.C02.empty_operator fs op hop h
 
+/-! ### the operator names are checked before any document is looked for -/
+
+/-- **Which update documents pass `_validate_update_operators`**: the ones made of known operators
+    only, and the replacement documents (first key not a known operator, no key starting with
+    `$`).  Everything else is a `ValueError`. -/
+theorem validated_update_shapes (u : Fields) :
+    validateOps u = .ok () ↔
+      (u.all (fun kv => knownOperator kv.1) = true ∨
+       (∃ k v rest, u = (k, v) :: rest ∧ knownOperator k = false ∧
+          u.all (fun kv => !kv.1.startsWith "$") = true)) :=
+  Proofs.C02Lemmas.validateOps_ok_iff u
+
+/-- **An unknown `$operator` anywhere in the update document is refused** (a typo, `$mul`, `$bit`):
+    first, last, alone or next to valid operators. -/
+theorem unknown_operator_invalid (u : Fields) (k : String) (hk : k ∈ dkeys u)
+    (hd : k.startsWith "$" = true) (hu : knownOperator k = false) :
+    validateOps u = .error .valueErr :=
+  Proofs.C02Lemmas.validateOps_unknown u k hk hd hu
+
+/-- **… before any document is looked for**: when the update document fails the precheck (the
+    pre-5.0 empty-operator rule, then the operator names), the call raises and returns the
+    collection exactly as it was handed in — no expiry pass, no filter evaluation, no match needed —
+    for every collection, every filter (a mapping or not, valid or not), upsert or not, one or
+    many.  (Repaired defect: the error used to depend on a document matching.) -/
+theorem invalid_update_refused_before_matching (cfg : Cfg) (now : Int) (c : Coll) (f : Val)
+    (u : Fields) (upsert multi : Bool) (e : Err) (h : updatePrecheck cfg (patchFields u) = .error e) :
+    ∃ e', applyUpdateColl cfg now c f (.doc u) upsert multi = (c, .error e') ∧
+      (∀ fs, f = .doc fs → e' = e) :=
+  Proofs.C02Lemmas.precheck_refuses cfg now c f u upsert multi e h
+
+/-- … which is the case for every update document holding an unknown `$operator` (the error is
+    the `ValueError` from 5.0 on; before 5.0 the empty-operator `WriteError` comes first when
+    both apply). -/
+theorem unknown_operator_fails_precheck (cfg : Cfg) (u : Fields) (k : String) (hk : k ∈ dkeys u)
+    (hd : k.startsWith "$" = true) (hu : knownOperator k = false) :
+    ∃ e, updatePrecheck cfg (patchFields u) = .error e ∧ (cfg.preV5 = false → e = .valueErr) :=
+  Proofs.C02Lemmas.precheck_unknown cfg u k hk hd hu
+
+/-- non-vacuity: `{$set: {a: 1}, $typo: 1}` is refused on a collection where nothing matches, on one
+    where the filter matches (`a` is NOT set), and with a malformed filter; `{$pop: {a: 5}, $typo:
+    1}` on a matching document now gives the ValueError for `$typo`, not the WriteError of the
+    `$pop` argument (applied alone, the operators would give that WriteError first) -/
+example :
+    let c : Coll := { docs := [(.int 1, .doc [("_id", .int 1), ("a", .arr [.int 0])])] }
+    let u : Val := .doc [("$set", .doc [("a", .int 1)]), ("$typo", .int 1)]
+    let isValueErr (r : Coll × R UpdateResult) : Bool :=
+      match r with
+      | (c', .error .valueErr) => c'.docs == c.docs
+      | _ => false
+    (isValueErr (applyUpdateColl {} 0 c (.doc [("_id", .int 9)]) u false false) &&
+     isValueErr (applyUpdateColl {} 0 c (.doc [("_id", .int 1)]) u false true) &&
+     isValueErr (applyUpdateColl {} 0 c (.doc [("a", .doc [("$foo", .int 1)])]) u true false) &&
+     isValueErr (applyUpdateColl {} 0 c (.doc []) (.doc [("$pop", .doc [("a", .int 5)]), ("$typo", .int 1)]) false false) &&
+     (match applyUpdate (.doc []) (.doc [("$pop", .doc [("a", .int 5)]), ("$typo", .int 1)]) .null false
+          (.doc [("_id", .int 1), ("a", .arr [.int 0])]) with
+      | .error .writeErr => true | _ => false) &&
+     knownOperator "$typo" == false && knownOperator "$mul" == false && knownOperator "$push" &&
+     (match validateOps [("x", .int 1), ("y", .int 2)] with | .ok () => true | _ => false)) = true := by
+  decide +kernel
+
 /-! ### non-vacuity: one concrete instance per group -/
 
 /-- result of a model call equals the expected value (structural equality) -/
@@ -234,6 +319,18 @@ example : (getPath ["a", "l", "3"]
 
 example : okIs (runUpdater .set .null (.arr [.int 0]) (toString 3) (.int 7))
     (.arr [.int 0, .null, .null, .int 7]) = true := by decide +kernel
+
+/-- known finding `nonnumeric-component-skipped` (outside `writable` / `getPath`, which the theorems
+    above are stated on): a path component that is no index is dropped when it meets an array, and
+    the walk goes on with the next component — the model follows the code: `$pop` of `d.x.0` pops
+    from `d[0]`, `$set` of `d.x.0` stores `d[0]`, although nothing is at `d.x.0` -/
+example :
+    let d : Val := .doc [("_id", .int 1), ("d", .arr [.arr [.str "b", .str "ba"]])]
+    getPath ["d", "x", "0"] d = none ∧ writable ["d", "x", "0"] d = false ∧
+    okIs (updateSingleField .pop .null (.int (-1)) ["d", "x", "0"] d)
+      (.doc [("_id", .int 1), ("d", .arr [.arr [.str "ba"]])]) = true ∧
+    okIs (updateSingleField .set .null (.int 5) ["d", "x", "0"] d)
+      (.doc [("_id", .int 1), ("d", .arr [.int 5])]) = true := by decide +kernel
 
 /-- `$unset/$inc/$min/$max/$pop/$rename` group -/
 example : okIs (runUpdater .inc .null (.doc [("_id", .int 1), ("n", .int 2)]) "n" (.int 5))
@@ -261,6 +358,18 @@ example : okIs (pushValue (.arr [.int 1, .int 2, .int 3])
     (match pullList (.int 1) [.int 1, .bool true, .int 2, .dbl 2 1, .str "1"] with
      | .ok r => Val.arr r == .arr [.int 2, .str "1"]
      | .error _ => false) = true := by decide +kernel
+
+/-- `$addToSet` with a clause next to `$each` (`$position`, a typo, before or after `$each`) is a
+    write error, on an array, on a missing field and on a non-array alike -/
+example :
+    (match addToSetValue (.arr [.int 1]) (.doc [("$each", .arr [.int 9, .int 0]), ("$typo", .int 1)]) with
+     | .error .writeErr => true | _ => false) = true ∧
+    (match addToSetValue (.int 5) (.doc [("$position", .int 0), ("$each", .arr [.int 9])]) with
+     | .error .writeErr => true | _ => false) = true ∧
+    (match applyUpdate (.doc []) (.doc [("$addToSet", .doc [("arr", .doc [("$each", .arr [.int 9, .int 0]), ("$typo", .int 1)])])])
+        .null false (.doc [("_id", .int 1)]) with
+     | .error .writeErr => true | _ => false) = true ∧
+    eachWithOtherClause (.doc [("$each", .arr [])]) = false := by decide +kernel
 
 /-- the four repaired defects on their witnesses: `$pullAll` on a missing path, duplicates inside
     `$each`, `$min` on an array element (and past the end), `$pull` with a path into an array of
